@@ -10,6 +10,6 @@ PROP = {
 }
 META = {
     "technique": "runtime monitor: tiling + count-agreement oracle over the real helpers, CreateSidecar, both multi-stream receivers (wire observation, in-memory pipes) and the legacy chunk pipeline; exhaustive small domain, boundary list, seeded random pairs",
-    "text": "Exploration with an exhaustively enumerated small domain: for every (size 0..300, chunk size 1..64) the sender helpers must tile the file (all indices), CreateSidecar, RecvManifestMultiStream (FileResumeInfo.TotalChunks off the wire, the sidecar it leaves, and delivery of exactly the sender's chunks ending in FileDone OK with an identical file), RecvManifestMultiStreamLegacy and the legacy send/receive pipeline on a real file must all agree with the sender's count. Beyond it: ~280 boundary pairs around 2^16, 2^31, 2^32, 4 MiB, 10 TiB and the 32-bit count limit, and 10^5 (quick) / 10^7 (thorough) seeded random pairs (half of them on or next to a multiple of the chunk size) against the helpers, with sidecar and receivers observed where the count is affordable. Decides the pairs evaluated, not the whole domain.",
+    "text": "Exploration with an exhaustively enumerated small domain: for every (size 0..300, chunk size 1..64) the sender helpers must tile the file (all indices), CreateSidecar, RecvManifestMultiStream (FileResumeInfo.TotalChunks off the wire, the sidecar it leaves, and delivery of exactly the sender's chunks ending in FileDone OK with an identical file), RecvManifestMultiStreamLegacy and the legacy send/receive pipeline on a real file must all agree with the sender's count. Beyond it: 334 boundary pairs around 2^16, 2^31, 2^32, 4 MiB, 10 TiB and the 32-bit count limit, and 10^5 (quick) / 10^7 (thorough) seeded random pairs (half of them on or next to a multiple of the chunk size) against the helpers, with sidecar and receivers observed where the count is affordable. Decides the pairs evaluated, not the whole domain.",
     "note": "Trusted: the harness arithmetic (uint64 quotient/remainder), in-memory pipes, sparse files on the scratch file system. Not covered: receivers for counts above 2^20, legacy pipeline outside the small domain, chunkSizeForIndex at every index for counts above 65 536 (sampled first/last/random indices).",
 }
